@@ -1,15 +1,15 @@
 """
 Contract on cvss/interactive.py::ask_interactively (C16), with ghost stdin / stdout.
 
-The answer loop (`while True`) of each metric is verified as a block with its own contract, for
-one arbitrary iteration on a fresh answer line:
-  * an iteration that leaves the loop appended exactly  metric + ":" + v  where v is a legal value
-    of the metric whose upper-cased spelling equals the upper-cased, stripped answer
-    (an empty answer standing for ND / X), and changed nothing else;
-  * an iteration that stays in the loop changed nothing (the question is simply repeated) and
-    its answer matched no legal value.
-The caller then sees the loop as "one field  metric:acc  appended", acc ranging over the legal
-values.  Selectability (every legal value can be entered) is a family of ground obligations:
+The answer loop of each metric is verified as a block, whatever its shape, for one arbitrary
+iteration on a fresh answer line:
+  * an iteration that stays in the loop read one line, changed nothing that is live at the loop
+    head (the question is simply repeated) and its answer matched no legal value;
+  * the iteration that leaves the loop is executed and execution continues after the loop; the
+    (stripped, empty = ND / X) answer is recorded as ghost state.
+The postcondition states the returned string over the recorded answers: the version prefix
+followed by, per metric in specification order,  metric + ":" + v  where v is the legal value whose
+upper-cased spelling equals the upper-cased answer.  Selectability (every legal value can be entered) is a family of ground obligations:
 the real loop body is executed concretely on the answer v, V.lower() and "  v  ".
 """
 from __future__ import annotations
@@ -44,15 +44,16 @@ def list_items(l):
 class AskInteractively(Contract):
     module, qualname = "interactive", "ask_interactively"
     may_print = True
+    # the documented version arguments: 2, 3.0, 3.1, 4.0 and their int / float twins (3 == 3.0, 4 == 4.0, 2.0 == 2)
     cases = tuple({"version": v, "all_metrics": a, "no_colors": n}
-                  for v in (2, 3.0, 3.1, 4.0) for a in (False, True) for n in (False, True))
+                  for v in (2, 3.0, 3.1, 4.0) for a in (False, True) for n in (False, True)) + tuple(
+        {"version": v, "all_metrics": a, "no_colors": True} for v in (3, 4, 2.0) for a in (False, True))
     modifies = frozenset()
 
     def setup(self, ctx):
         c = ctx.case
         ctx.data["cursor"] = 0
-        ctx.data["accepted"] = []  # (metric, finite choice over legal values)
-        ctx.data["loops"] = 0
+        ctx.data["answers"] = []  # ghost: (metric, normalised accepted answer) per answer loop
         return [c["version"], c["all_metrics"], c["no_colors"]], {}
 
     def hooks(self, ctx):
@@ -70,90 +71,152 @@ class AskInteractively(Contract):
 
     # -------------------------------------------------------------------------------------------
     def answer_loop(self, ctx, eng, st, frame, node):
+        """
+        Block contract of the answer loop, independent of how the loop is written (while True +
+        break, while <flag>, first-match for loop, comprehension ...).  Every execution of the
+        loop is some rejected iterations followed by one accepting iteration, so two cases cover it:
+          R  one arbitrary iteration on a fresh line that does NOT leave the loop: it read exactly
+             one line, the answer matches no legal value, and nothing that is live at the loop
+             head changed (hence every iteration starts from the state this one started from);
+          A  one arbitrary iteration on a fresh line that DOES leave the loop: execution simply
+             continues after the loop; the answer is recorded as ghost state and the
+             postcondition states the returned vector in terms of the recorded answers.
+        """
         import ast
 
-        if not (isinstance(node.test, ast.Constant) and node.test.value is True):
-            return False
         spec, prefix, nd = SPEC[ctx.case["version"]]
         metric = frame.locals.get("metric")
-        vec = frame.locals.get("vector")
-        if not isinstance(metric, str) or not isinstance(vec, (GList, list)) or metric not in spec.VALUES:
+        if not isinstance(metric, str) or metric not in spec.VALUES:
             raise Unsupported("answer loop in an unexpected state (metric=%r)" % (metric,))
         legal = spec.VALUES[metric]
         name = "interactive.ask_interactively/answer-loop[%s]" % metric
-        ctx.data["loops"] += 1
-        verify_iteration = st.decide(z3.Bool(fresh_name("verify_iteration")), "answer loop: verify one iteration vs. use its contract")
-        if verify_iteration:
-            before = list_items(vec)
-            k0 = ctx.data["cursor"]
-            stdout0 = len(st.stdout)
-            watch = {k: v for k, v in frame.locals.items() if not k.startswith("__") and k not in assigned_names(node)}
-            left = False
-            try:
-                eng.exec_block(node.body, frame, st)
-            except BreakSig:
-                left = True
-            except ContinueSig:
-                pass
-            after = list_items(vec)
-            answer = mk_str(S.f_strip(f_line(k0)))
-            st.prove(name + "/reads-one-line", ctx.data["cursor"] == k0 + 1, "each iteration reads exactly one answer line")
-            same = all(frame.locals.get(k) is v for k, v in watch.items())
-            st.prove(name + "/frame", same, "an iteration changes no other local state")
+        always = isinstance(node.test, ast.Constant) and node.test.value is True
+
+        def test_holds():
+            return True if always else eng.truth(eng.eval(node.test, frame, st), st, "while")
+
+        if not test_holds():
+            if node.orelse:
+                eng.exec_block(node.orelse, frame, st)
+            return True
+        assigned = assigned_names(node)
+        live = live_at_head(node)
+        snapshot = {k: v for k, v in frame.locals.items() if not k.startswith("__")}
+        lists0 = {k: list_items(v) for k, v in snapshot.items() if isinstance(v, (list, GList))}
+        k0 = ctx.data["cursor"]
+        rejected_case = st.decide(z3.Bool(fresh_name("rejected_iteration")), "answer loop: a rejected vs. the accepting iteration")
+        left = broke = False
+        try:
+            eng.exec_block(node.body, frame, st)
+        except BreakSig:
+            left = broke = True
+        except ContinueSig:
+            pass
+        if not left:
+            left = not test_holds()
+        st.prove(name + "/reads-one-line", ctx.data["cursor"] == k0 + 1, "each iteration reads exactly one answer line")
+        answer = S.f_strip(f_line(k0))
+        norm = S.upper(mk_str(z3.If(answer == lit(""), lit(nd), answer))).z  # upper-cased, empty = Not Defined
+        if rejected_case:
             if left:
-                ok = len(after) == len(before) + 1 and after[: len(before)] == before
-                st.prove(name + "/appends-one-field", ok, "leaving the loop appends exactly one field")
-                if ok:
-                    fld = after[-1]
-                    good = isinstance(fld, str) and fld.startswith(metric + ":") and fld[len(metric) + 1:] in legal
-                    st.prove(name + "/field-legal", good, "the field is metric:value with a legal value of the specification")
-                    if good:
-                        v = fld[len(metric) + 1:]
-                        norm = z3.If(answer.z == lit(""), lit(nd), answer.z) if isinstance(answer, SStr) else None
-                        if norm is not None:
-                            st.prove(name + "/case-insensitive-match", S.f_upper(norm) == lit(v.upper()),
-                                     "the accepted value is the legal value whose upper-cased spelling equals the upper-cased stripped answer (empty = %s)" % nd)
-            else:
-                st.prove(name + "/repeat-unchanged", after == before, "a rejected answer changes nothing")
-                if isinstance(answer, SStr):
-                    norm = z3.If(answer.z == lit(""), lit(nd), answer.z)
-                    st.prove(name + "/rejected-only-if-illegal", z3.And(*[S.f_upper(norm) != lit(v.upper()) for v in legal]),
-                             "a question is repeated only when the answer matches no legal value")
-            raise PathCut("answer loop iteration verified")
-        # contract of the loop for the caller: one accepted legal value
-        acc = fd.var("acc.%s" % metric, list(legal))
-        ctx.data["accepted"].append((metric, acc))
-        field = S.concat(metric + ":", acc)
-        eng.call_method(vec, "append", [field], {}, st)
-        ctx.data["cursor"] += 1
+                raise PathCut("covered by the accepting case")
+            changed = []
+            for k, v in snapshot.items():
+                if k in assigned and k not in live:
+                    continue  # re-assigned before it is read again
+                if not self.unchanged(eng, st, frame.locals.get(k, None), v):
+                    changed.append(k)
+            for k, items in lists0.items():
+                if k in assigned and k not in live:
+                    continue
+                if list_items(frame.locals.get(k)) != items and k not in changed:
+                    changed.append(k)
+            st.prove(name + "/repeat-unchanged", not changed, "a rejected answer changes nothing that is still used (changed: %s)" % changed)
+            st.prove(name + "/rejected-only-if-illegal", z3.And(*[norm != lit(v.upper()) for v in legal]),
+                     "a question is repeated only when the answer matches no legal value")
+            raise PathCut("rejected iteration verified")
+        if not left:
+            raise PathCut("covered by the rejected case")
+        same = all(frame.locals.get(k) is v for k, v in snapshot.items() if k not in assigned)
+        st.prove(name + "/frame", same, "the answer loop assigns no local it does not own")
+        ctx.data["answers"].append((metric, norm))
+        if node.orelse and not broke:
+            eng.exec_block(node.orelse, frame, st)
         return True
+
+    @staticmethod
+    def unchanged(eng, st, new, old):
+        if new is old:
+            return True
+        from pyvc.interp import is_concrete
+
+        if is_concrete(new) and is_concrete(old) and not isinstance(new, (list, dict, GList)):
+            try:
+                return type(new) is type(old) and new == old
+            except Exception:  # noqa
+                return False
+        return False
 
     # -------------------------------------------------------------------------------------------
     def check_return(self, ctx, value):
+        from pyvc.sym import regroup
+
+        from .common import strings_equal
+
         c = ctx.case
         spec, prefix, nd = SPEC[c["version"]]
-        asked = [m for m, _ in ctx.data["accepted"]]
+        answers = ctx.data["answers"]
+        asked = [m for m, _ in answers]
         want = list(spec.ORDER) if c["all_metrics"] else list(spec.BASE)
         ctx.prove("post:asks-each-metric-once-in-order", asked == want,
                   "asked %s, specification order %s" % (asked[:6], want[:6]))
-        items = [(z3.BoolVal(True), S.concat(m + ":", a)) for m, a in ctx.data["accepted"]]
-        from .common import strings_equal
-
+        # the field an answer selects: the legal value whose upper-cased spelling equals the
+        # upper-cased stripped answer (empty = Not Defined), in its canonical spelling
+        items = []
+        for m, norm in answers:
+            field = regroup([(norm == lit(v.upper()), "%s:%s" % (m, v)) for v in spec.VALUES[m]])
+            items.append((z3.BoolVal(True), field))
         expect = S.concat(prefix, S.SCat([S.JoinPiece("/", items)])) if len(items) > 1 else None
         if expect is not None and isinstance(value, (str, SStr, FV)):
             ctx.prove("post:vector==prefix+answers", strings_equal(value, expect),
-                      "the result is the version prefix followed by exactly the accepted answers")
+                      "the result is the version prefix followed by exactly the fields the accepted answers select")
         else:
             ctx.fail("post:vector==prefix+answers", "unexpected result %r" % (type(value).__name__,))
         # the class accepts it: every field is metric:legal, each metric once, all mandatory asked
         ctx.prove("post:accepted-by-class", set(spec.BASE) <= set(asked) and len(set(asked)) == len(asked),
-                  "every mandatory metric is asked, none twice; values are legal by the loop contract")
+                  "every mandatory metric is asked, none twice; values are legal by construction of the selected field")
 
     def check_raise(self, ctx, exc):
         if exc.exc_cls is EOFError:
             ctx.prove("raises:EOFError-only-at-end-of-input", True, "end of input is the only escape")
             return
         Contract.check_raise(self, ctx, exc)
+
+
+def live_at_head(node):
+    """names that may be read in a loop iteration before the iteration assigns them (syntactic,
+    conservative): reads in the test, and reads in the body not preceded by a top-level assignment"""
+    import ast
+
+    def loads(n):
+        return {x.id for x in ast.walk(n) if isinstance(x, ast.Name) and isinstance(x.ctx, ast.Load)}
+
+    def stores(t):
+        return {x.id for x in ast.walk(t) if isinstance(x, ast.Name) and isinstance(x.ctx, ast.Store)}
+
+    live = set(loads(node.test))
+    defined = set()
+    for stmt in node.body:
+        if isinstance(stmt, ast.For):
+            live |= loads(stmt.iter) - defined
+            inner = defined | stores(stmt.target)
+            for b in stmt.body + stmt.orelse:
+                live |= loads(b) - inner
+            continue
+        live |= loads(stmt) - defined
+        if isinstance(stmt, ast.Assign) and all(isinstance(t, ast.Name) for t in stmt.targets):
+            defined |= {t.id for t in stmt.targets}
+    return live
 
 
 def assigned_names(node):
